@@ -334,8 +334,7 @@ def run_property(prop_id, tier="quick", seed=0, jobs=None, only=None):
             results[k] = run_task(prop_id, k, tier, seed)
     else:
         ctxm = mp.get_context("spawn")
-        counter = ctxm.Value("i", 0)
-        with cf.ProcessPoolExecutor(max_workers=jobs, mp_context=ctxm, initializer=_pin_worker, initargs=(counter,)) as ex:
+        with cf.ProcessPoolExecutor(max_workers=jobs, mp_context=ctxm) as ex:
             futs = {ex.submit(run_task, prop_id, k, tier, seed): k for k in keys}
             for f in cf.as_completed(futs):
                 k = futs[f]
@@ -389,7 +388,7 @@ def finish(prop_id, mod, tier, seed, keys, results, t0):
         witness = results[k]["witnesses"].get(wkey) if kind == "obligation" else o.get("witness")
         kf = match_known(kfs, k, o["name"], witness)
         reproduced, detail = None, ""
-        if hasattr(mod, "replay"):
+        if kf is None and hasattr(mod, "replay"):
             try:
                 reproduced, detail = mod.replay(k, o["name"], witness)
             except Exception:  # noqa: BLE001
